@@ -50,7 +50,13 @@ IndivU == UNION {[S -> {"b", "n"}] : S \in SUBSET {"a", "z"}}
 ArgU   == {<<"sel", x>> : x \in SelU} \cup {<<"keys", s>> : s \in SeqsUpTo({"a", "b", "_c", "z"}, 2)}
           \cup {<<"other", o>> : o \in OtherU} \cup {<<"ren", r>> : r \in RenU}
           \cup {<<"ren2", <<bl, iv>>>> : bl \in BlankU, iv \in IndivU}
-InitMap == mode = "map" /\ a \in MapU /\ b \in ArgU /\ pending = {} /\ m = Nil
+\* values that are mappings themselves (Algebra.tla 2b): every mapping with at least one such value, and every other
+\* mapping that may reach inside it (d + other, d | other; the remaining operators meet such values in MC_AlgebraSes)
+NestD  == <<"m", [x |-> VInt(1), y |-> VInt(2)]>>
+NestO  == <<"m", [y |-> VInt(20), z |-> VInt(30)]>>
+NMapU  == {d \in MapsOver(MKey, {VInt(1), NestD}) : \E i \in 1..Len(d) : IsM(d[i][2])}
+NArgU  == {<<"other", o>> : o \in MapsOver({"b", "_c", "z"}, {VInt(2), NestO})}
+InitMap == mode = "map" /\ ((a \in MapU /\ b \in ArgU) \/ (a \in NMapU /\ b \in NArgU)) /\ pending = {} /\ m = Nil
 
 \* --- "call": a = [par, kin, star, shape] (derived key -> parameter names / their kinds / stars / shape), pending, m ------
 \* a base key is called "key": Dict.__call__ hands every definition a hidden default key = <its name>, which an entry
@@ -137,6 +143,14 @@ PlusLaw     == OnM("other") => LET r == Plus(a, b[2]) IN
                              /\ DOMAIN r = KeySet(a) \cup KeySet(b[2])
                              /\ \A k \in DOMAIN r : r[k] = IF k \in KeySet(b[2]) THEN At(b[2], k) ELSE At(a, k)
                              /\ Plus(a, <<>>) = AsFun(a) /\ Plus(a, a) = AsFun(a) /\ Plus(<<>>, b[2]) = AsFun(b[2])
+\* Dict + other (tree_update): {**d, **o} except where both sides hold a mapping - there the recursive merge (C15)
+TreePlusLaw == OnM("other") => LET r == PlusOn("Dict", a, b[2])  o == b[2] IN
+                             /\ DOMAIN r = KeySet(a) \cup KeySet(o) /\ PlusOn("dictattr", a, o) = Plus(a, o)
+                             /\ \A k \in DOMAIN r : IF k \in KeySet(a) /\ k \in KeySet(o) /\ IsM(At(a, k)) /\ IsM(At(o, k))
+                                                    THEN /\ IsM(r[k]) /\ DOMAIN r[k][2] = DOMAIN At(a, k)[2] \cup DOMAIN At(o, k)[2]
+                                                         /\ \A q \in DOMAIN r[k][2] : r[k][2][q] = IF q \in DOMAIN At(o, k)[2] THEN At(o, k)[2][q] ELSE At(a, k)[2][q]
+                                                    ELSE r[k] = Plus(a, o)[k]
+                             /\ PlusOn("Dict", a, <<>>) = AsFun(a) /\ PlusOn("Dict", a, a) = AsFun(a) /\ PlusOn("Dict", <<>>, o) = AsFun(o)
 SelectLaw   == OnM("keys") => LET ks == b[2]  s == Select(a, ks)  g == MultiGet(a, ks) IN
                              /\ (s = Raises("KeyError")) <=> (\E i \in 1..Len(ks) : ks[i] \notin KeySet(a))
                              /\ (g = Raises("KeyError")) <=> (s = Raises("KeyError"))
@@ -191,7 +205,7 @@ GenMap   == /\ mode = "map" /\ ~go /\ go' = TRUE /\ UNCHANGED args
             /\ PrintT(ToJson([op |-> "map", d |-> a, arg |-> b,
                               out |-> CASE b[1] = "sel"   -> [minus |-> Minus(a, b[2]), and |-> And(a, b[2])]
                                         [] b[1] = "keys"  -> [select |-> Select(a, b[2]), multiget |-> MultiGet(a, b[2])]
-                                        [] b[1] = "other" -> [plus |-> Plus(a, b[2])]
+                                        [] b[1] = "other" -> [plus |-> Plus(a, b[2]), tplus |-> PlusOn("Dict", a, b[2])]
                                         [] b[1] = "ren"   -> [collides |-> Collides(a, b[2]), relabel |-> Relabel(a, b[2])]
                                         [] b[1] = "ren2"  -> LET ren == Renaming(a, b[2][1], b[2][2]) IN
                                                              [collides |-> Collides(a, ren), relabel |-> Relabel(a, ren)]]))
